@@ -30,6 +30,7 @@ type c13v13 struct {
 	recSeq  uint64
 	sdone   chan struct{}
 	serr    error
+	cookie  []byte
 }
 
 func c13v13Start(t *testing.T) *c13v13 {
@@ -110,6 +111,10 @@ func (x *c13v13) serverOut(from int, st *c13Step) (hrrCookie []byte) {
 					if isHRR {
 						kinds["hvr"] = true
 						st.OutKinds = append(st.OutKinds, 3)
+						if x.cookie == nil {
+							x.cookie = bytes.Clone(hrrCookie)
+						}
+						st.HVRCookieOK = bytes.Equal(hrrCookie, x.cookie)
 					} else {
 						kinds["flight4"] = true
 						st.OutKinds = append(st.OutKinds, 2)
